@@ -447,6 +447,8 @@ func init() {
 			{Entry: "VerifC11Deep", Params: map[string]int{"N": 1, "DEPTH": 40}, Covers: []string{"C11.deep.end"}, DiffRuns: 10},
 			// root-only watch mode after a committed pre-state {"", "a"}: a write below a key followed by a write of that key
 			{Entry: "VerifC11Driver", Params: map[string]int{"N": 2, "L": 1, "ROOTONLY": 1, "PRE": 2}, Covers: []string{"C11.kept-version-compared", "C11.end"}, DiffRuns: 20},
+			// pre-state {"", "a", "ab"}: insert/modify/delete pairs around a key that holds a value and has exactly one child
+			{Entry: "VerifC11Driver", Params: map[string]int{"N": 2, "L": 2, "PRE": 3, "OPS": 1 | 2 | 4}, Covers: []string{"C11.kept-version-compared", "C11.end"}, DiffRuns: 20},
 		}, append(fanRuns([]int{4, 5, 16, 17, 48, 49}, 1, nil), append(fanRuns([]int{5, 17, 49}, 1, map[string]int{"INNERLEAF": 1}), fanRuns([]int{2, 4}, 2, map[string]int{"INNERLEAF": 1, "KTAIL": 1, "QTAIL": 0, "CLONE": 0})...)...)...),
 		Thorough: append(append([]HarnessRun{
 			{Entry: "VerifC11Driver", Params: map[string]int{"N": 3, "L": 1, "ROOTONLY": 1}, Covers: c11covers, DiffRuns: 20},
@@ -536,6 +538,8 @@ func init() {
 			c01(map[string]int{"N": 2, "PRE": 1, "OPMAX": 1, "LPM": 0, "SYMQ": 1}, 10),
 			// primary keys that are prefixes of one another, two writes per transaction
 			c01(map[string]int{"N": 2, "PRE": 3, "IDSET": 1, "WPT": 2, "OPMAX": 1}, 10),
+			// ids {"a","ab","x"}: "a" carries a value and has one child, away from the root; point queries for every id
+			c01(map[string]int{"N": 2, "PRE": 3, "IDSET": 2, "WPT": 2, "OPMAX": 1}, 10),
 			step,
 			// a reader thread against a writer thread, switching at every synchronisation operation
 			{Entry: "VerifC01Reader", Params: map[string]int{"N": 1}, Covers: []string{"C01.reader.end"}, NoNative: true, Preempt: 2, Budget2: 2, Deadlock: true},
@@ -602,7 +606,8 @@ func init() {
 		ID: "C07", PkgDir: "statedb",
 		Quick:    []HarnessRun{c07(map[string]int{"N": 3, "PRE": 1, "CAS": 0}, 60), c07cas(2), {Entry: "VerifKFNextUncommitted"},
 			// the same delivery clause with the graveyard collector running (C08's harness): Next through a WriteTxn with a pending delete, then GC, then a lagging Next
-			{Entry: "VerifC08Graveyard", Params: map[string]int{"N": 2, "NIT": 2, "STEPMAX": 6, "CAS": 0}, Covers: []string{"C08.next-with-writetxn", "C08.end"}, NoNative: true, Preempt: 0, Deadlock: true}},
+			{Entry: "VerifC08Graveyard", Params: map[string]int{"N": 2, "NIT": 2, "STEPMAX": 6, "CAS": 0}, Covers: []string{"C08.next-with-writetxn", "C08.end"}, NoNative: true, Preempt: 0, Deadlock: true},
+			c08partial},
 		Thorough: []HarnessRun{},
 		Known:    []KnownProbe{{ID: "KF-next-uncommitted-deletes", Entry: "VerifKFNextUncommitted"}},
 		Outside: []string{"outside: interleaving with graveyard collection and with other iterators being created/closed (one iterator, no collector runs: see C08); the Observable wrapper; finalizer-driven close; more than N steps after PRE concrete objects; keys longer than L",
@@ -620,6 +625,11 @@ func init() {
 	})
 }
 
+// STEPS 262 = write | drain | "a writer holds the table while the collector scans, re-inserts and commits"
+var c08held = HarnessRun{Entry: "VerifC08Graveyard", Params: map[string]int{"N": 4, "NIT": 1, "CAS": 0, "STEPS": 2 | 4 | 256}, Covers: []string{"C08.writer-held-table-during-scan", "C08.end"}, NoNative: true, Preempt: 0, Deadlock: true}
+
+var c08partial = HarnessRun{Entry: "VerifC08Graveyard", Params: map[string]int{"N": 4, "NIT": 1, "CAS": 0, "STEPS": 1 | 16 | 128}, Covers: []string{"C08.partial", "C08.gc-window", "C08.end"}, NoNative: true, Preempt: 0, Deadlock: true}
+
 func init() {
 	reg(&CheckSpec{
 		ID: "C05", PkgDir: "statedb",
@@ -630,9 +640,12 @@ func init() {
 			{Entry: "VerifC10Threads", Params: map[string]int{"T": 2, "LISTMAX": 1, "KINDMAX": 2}, Covers: []string{"C10.end"}, NoNative: true, Preempt: 1, Budget2: 3, Deadlock: true},
 			// every atomic / unlock / channel operation is a scheduling point: two committers on disjoint tables
 			{Entry: "VerifC10Threads", Params: map[string]int{"T": 2, "LISTMAX": 1, "KINDMAX": 0, "COMMITONLY": 1}, Covers: []string{"C10.end"}, NoNative: true, Preempt: 2, Budget2: 2, Deadlock: true},
+			// one-table database: a committer that holds every table against a thread registering a table, switching at every synchronisation operation
+			{Entry: "VerifC10Threads", Params: map[string]int{"T": 2, "NTAB": 1, "LISTMAX": 0, "KINDMAX": 2, "COMMITONLY": 1}, Covers: []string{"C10.end"}, NoNative: true, Preempt: 2, Budget2: 2, Deadlock: true},
 		},
 		Thorough: []HarnessRun{
 			{Entry: "VerifC10Threads", Params: map[string]int{"T": 2, "LISTMAX": 3, "KINDMAX": 2}, Covers: []string{"C10.end"}, NoNative: true, Preempt: 1, Budget2: 2, Deadlock: true},
+			{Entry: "VerifC10Threads", Params: map[string]int{"T": 2, "NTAB": 1, "LISTMAX": 0, "KINDMAX": 2, "COMMITONLY": 1}, Covers: []string{"C10.end"}, NoNative: true, Preempt: 2, Budget2: 3, Deadlock: true},
 		},
 		Known: []KnownProbe{{ID: "KF-commit-drops-new-table", Entry: "VerifKFCommitDropsNewTable"}},
 		Outside: []string{"outside: more than 2-3 threads / 3 tables; more than the preemption budget (2 quick, 3 thorough) of voluntary switches per schedule, scheduling points = lock acquisitions and goroutine starts (a ReadTxn/root load is atomic); weak-memory effects",
@@ -643,6 +656,8 @@ func init() {
 		Quick: []HarnessRun{
 			{Entry: "VerifC10Threads", Params: map[string]int{"T": 2, "LISTMAX": 7, "KINDMAX": 1}, Covers: []string{"C10.end"}, NoNative: true, Preempt: 1, Deadlock: true},
 			{Entry: "VerifC05Serial", Covers: []string{"C05.disjoint-commit", "C05.blocked", "C05.end"}, NoNative: true, Deadlock: true},
+			// collector against a writer that holds the table during the scan (a collector that keeps a table locked deadlocks the next writer)
+			c08held,
 		},
 		Thorough: []HarnessRun{
 			{Entry: "VerifC08Graveyard", Params: map[string]int{"N": 2, "NIT": 1}, Covers: []string{"C08.end"}, NoNative: true, Preempt: 1, Deadlock: true},
@@ -660,8 +675,13 @@ func init() {
 			// steps 5 (new iterator) and 6 (catch up through a WriteTxn with a pending delete); scripted prefix: delete, close all iterators
 			{Entry: "VerifC08Graveyard", Params: map[string]int{"N": 3, "NIT": 1, "SCRIPT": 1, "STEPMAX": 6, "CAS": 0}, Covers: []string{"C08.new-iterator", "C08.end"}, NoNative: true, Preempt: 0, Deadlock: true},
 			{Entry: "VerifC08Graveyard", Params: map[string]int{"N": 2, "NIT": 2, "STEPMAX": 6, "CAS": 0}, Covers: []string{"C08.next-with-writetxn", "C08.end"}, NoNative: true, Preempt: 0, Deadlock: true},
+			// STEPS 145 = write | collector window | partial consumption (first pending change only)
+			c08partial, c08held,
+			// two tables with one iterator each: one collection run with collectable entries in both
+			{Entry: "VerifC08TwoTables", Covers: []string{"C08.two.gc-window", "C08.two.end"}, NoNative: true, Deadlock: true},
 		},
 		Thorough: []HarnessRun{
+			{Entry: "VerifC08TwoTables", Params: map[string]int{"ROUNDS": 2}, Covers: []string{"C08.two.end"}, NoNative: true, Deadlock: true},
 			{Entry: "VerifC08Graveyard", Params: map[string]int{"N": 3, "NIT": 2, "EARLY": 1}, Covers: []string{"C08.end"}, NoNative: true, Preempt: 0, Deadlock: true},
 			{Entry: "VerifC08Graveyard", Params: map[string]int{"N": 3, "NIT": 2}, Covers: []string{"C08.end"}, NoNative: true, Preempt: 0, Deadlock: true},
 		},
@@ -681,7 +701,9 @@ func init() {
 	}
 	reg(&CheckSpec{
 		ID: "C02", PkgDir: "statedb",
-		Quick:    []HarnessRun{c02(2)},
+		Quick: []HarnessRun{c02(2),
+			// a table is registered while the observed transaction is open (Commit merges into a grown root)
+			{Entry: "VerifC02Atomic", Params: map[string]int{"N": 1, "L": 1, "NEWTABLE": 1}, Covers: []string{"C02.table-registered-meanwhile", "C02.committed", "C02.end"}, NoNative: true}},
 		Thorough: []HarnessRun{c02(3), {Entry: "VerifC02Atomic", Params: map[string]int{"N": 2, "L": 2}, Covers: []string{"C02.end"}, NoNative: true}},
 		Outside: []string{"outside: more than two tables / N writes per transaction; observation points are the synchronisation operations (atomic store/swap, mutex lock/unlock, channel close) executed between WriteTxn's return and the end of Commit/Abort - the states a concurrent reader (one atomic root load) can distinguish; finer instruction-level interleavings and weak memory are not explored",
 			"VM-only vocabulary (sync observer): counterexamples are replayed concretely in the VM on the real code"},
@@ -717,7 +739,9 @@ func init() {
 	bo := map[string]int{"R": 2, "KEYS": 1, "W": 1, "F": 3, "INJECT": 0, "MINB": 2, "MAXB": 8}
 	probe := HarnessRun{Entry: "VerifKFRetryStatusLost"}
 	pruneRun := HarnessRun{Entry: "VerifC15Prune", Covers: []string{"C15.prune.end"}, NoNative: true, Deadlock: true}
-	outside := []string{"outside: refreshLoop, prune cadence, rate limiters (stubbed), hive job restarts, real time (virtual discrete-event time); more than R symbolic rounds + K quiescent rounds, 2 keys, F failure decisions, W user writes; the reconcile loop's select is replaced by the harness calling incremental.run round by round (the real run/commitStatus/processRetries/retries code is executed); choices are explicit forks (payload values symbolic), so the solver contributes little beyond path bookkeeping",
+	// the real refreshLoop as a VM thread; its rate limiter is a scheduling point at which the user may change objects
+	refreshRun := HarnessRun{Entry: "VerifC15Refresh", Covers: []string{"C15.refresh.user-write", "C15.refresh.marked", "C15.refresh.end"}, NoNative: true, Deadlock: true, Budget2: 20}
+	outside := []string{"outside: rate limiters (stubbed: Wait yields and returns ctx.Err()), hive job restarts, real time (virtual discrete-event time); more than R symbolic rounds + K quiescent rounds, 2 keys, F failure decisions, W user writes; the reconcile loop's select is replaced by the harness calling incremental.run round by round (the real run/commitStatus/processRetries/retries code is executed); choices are explicit forks (payload values symbolic), so the solver contributes little beyond path bookkeeping",
 		"VM-only vocabulary (virtual time): counterexamples of VerifC14Rounds are replayed concretely in the VM; VerifKFRetryStatusLost also replays natively"}
 	reg(&CheckSpec{ID: "C14", PkgDir: "reconciler",
 		Quick:    []HarnessRun{rounds(14, base), rounds(14, two), rounds(14, batch), rounds(14, rs1), probe},
@@ -725,9 +749,9 @@ func init() {
 		Known:    []KnownProbe{{ID: "KF-retry-status-lost", Entry: "VerifKFRetryStatusLost"}},
 		Outside:  outside})
 	reg(&CheckSpec{ID: "C15", PkgDir: "reconciler",
-		Quick:    []HarnessRun{rounds(15, base), rounds(15, two), rounds(15, batch), rounds(15, sset), probe, pruneRun},
+		Quick:    []HarnessRun{rounds(15, base), rounds(15, two), rounds(15, batch), rounds(15, sset), probe, pruneRun, refreshRun},
 		Thorough: []HarnessRun{rounds(15, mid)},
-		Outside:  append([]string{"Prune gating: VerifC15Prune runs the real reconcileLoop as a VM thread under virtual time (10 ms prune interval, pending initializer for 0..3 periods, optional explicit Prune() before initialization)"}, outside...)})
+		Outside:  append([]string{"Refresh: VerifC15Refresh runs the real refreshLoop as a VM thread (two old Done objects, 10 ms refresh interval, up to 3 user writes placed wherever the refresher yields)", "Prune gating: VerifC15Prune runs the real reconcileLoop as a VM thread under virtual time (10 ms prune interval, pending initializer for 0..3 periods, optional explicit Prune() before initialization)"}, outside...)})
 	reg(&CheckSpec{ID: "C16", PkgDir: "reconciler",
 		Quick: []HarnessRun{
 			{Entry: "VerifC16Retries", Params: map[string]int{"N": 3}, Covers: []string{"C16.popped", "C16.timer-fired", "C16.retries.end"}, NoNative: true, Deadlock: true},
